@@ -418,6 +418,8 @@ class Ctx:
         # independent checker coqchk, and take its axiom / unsafe-feature summary
         if ok and self.tier == "thorough" and os.environ.get("VERIF_NO_COQCHK") != "1":
             self.coqchk(pid)
+        if os.environ.get("VERIF_SELFTEST_BROKEN") == "1":      # self-test of the search path (never set by a registered command)
+            self.broken.append("self-test: VERIF_SELFTEST_BROKEN=1 pretends that a proof obligation broke")
         # 4. correspondence
         self.proofs_ok = ok and not self.broken
         mod.correspondence(self)
@@ -516,7 +518,9 @@ class Ctx:
 
     def finish(self, mod):
         pid = self.pid
-        if self.broken and not self.failures:
+        if (self.broken and not self.failures) or (self.tier == "thorough" and not self.failures):
+            # search for a failing input when something broke; in the thorough tier always, as a second, independent
+            # comparison of the implementation with the specification-only machine
             self.spec_search()
         known = known_findings(pid)
         violations = 0
